@@ -179,6 +179,62 @@ example : (match exec .repaired (mkSys chainProg) (List.replicate 40 0 ++ [1, 2,
       ++ List.replicate 40 2 ++ List.replicate 40 1) with
     | some _ => false | none => true) = true := by decide
 
+/-! ### registration and completion are atomic with respect to each other
+
+The theorems above are about the machine whose atomic steps are the critical sections of the source:
+`ThenAccept` checks `completed` AND appends (or reads the value) in ONE section of an exclusive lock.  That
+granularity is a regenerated fact (`thenAccept_check_and_append_one_exclusive_section` below).  A variant that
+peeks `completed` in one section (say under a read lock) and appends in a later one is a different machine
+(`stepSplit`): it parks callbacks on completed futures, where they never run. -/
+
+/-- at EVERY reachable state of every schedule: a parked callback sits on a future that is not completed
+    (so the completion that comes later will run it) -/
+theorem never_parked_on_completed_future (m : Mode) (threads : List (List Call)) (sched : List Nat) (s' : Sys)
+    (h : exec m (mkSys threads) sched = some s') : ∀ p ∈ s'.waiting, s'.value p.1 = none :=
+  (exec_valInv h (valInv_mkSys threads)).wait
+
+/-- one registrar, one completer -/
+def raceProg : List (List Call) := [[.thenAccept 0 (.log 1)], [.complete 0 7]]
+
+def lostAfterSplit (sched : List Nat) : Bool :=
+  match execSplit (mkSys raceProg) sched with
+  | some s => terminal s && s.value 0 == some 7 && logCnt 1 0 s == 0 && s.waiting.any (·.1 == 0)
+  | none => false
+
+/-- split check: peek (not completed) · Complete runs entirely · append ⇒ the callback ran 0 times and is
+    parked for ever on a completed future -/
+theorem split_check_defective_fails : lostAfterSplit [0, 1, 0] = true := by decide
+
+/-- so the full-strength statement fails for that variant … -/
+theorem never_parked_split_check_fails :
+    ¬ (∀ (sched : List Nat) (s : Sys), execSplit (mkSys raceProg) sched = some s →
+        ∀ p ∈ s.waiting, s.value p.1 = none) := by
+  intro hall
+  have hw := split_check_defective_fails
+  unfold lostAfterSplit at hw
+  split at hw
+  · rename_i s hs
+    simp only [Bool.and_eq_true, List.any_eq_true, beq_iff_eq] at hw
+    obtain ⟨⟨⟨_, hv⟩, _⟩, p, hp, hp0⟩ := hw
+    have := hall _ s hs p hp
+    rw [hp0, hv] at this; cases this
+  · cases hw
+
+/-- exhaustive exploration of EVERY schedule of a (small) system under the source's granularity -/
+def forallRuns : Nat → Sys → (Sys → Bool) → Bool
+  | 0, _, _ => false
+  | fuel + 1, s, P =>
+    if terminal s then P s else
+    (List.range s.threads.length).all fun t => match step .repaired s t with
+      | none => true
+      | some s' => forallRuns fuel s' P
+
+/-- … while under the source's granularity every one of the schedules of the same program ends with the
+    callback invoked exactly once and nothing parked (besides the general theorems above, which say so
+    for every program) -/
+example : forallRuns 8 (mkSys raceProg) (fun s => logCnt 1 0 s == 1 && s.waiting.isEmpty && s.value 0 == some 7) = true := by
+  decide
+
 /-! ### the code before the fix (`Mode.defective`): callbacks ran with the mutex held -/
 
 /-- `f.ThenAccept(func(v){ f.ThenAccept(log 1) })` then `f.Complete(7)` on one goroutine -/
@@ -260,6 +316,17 @@ theorem thenAccept_single_critical_section :
 theorem complete_single_critical_section :
     countOf Gate.Gen.C42.completeCalls "f.mu.Lock" = 1 ∧ countOf Gate.Gen.C42.completeCalls "defer:f.mu.Unlock" = 0
     ∧ countOf Gate.Gen.C42.completeCalls "fn" = 1 := by decide
+/-- check-and-append is ONE critical section of an EXCLUSIVE lock: `ThenAccept` starts by taking `f.mu.Lock`,
+    never uses a read lock / TryLock, takes the lock once, appends inside it and invokes the callback only after
+    the last `Unlock`; `Complete` likewise drains inside its single exclusive section -/
+theorem thenAccept_check_and_append_one_exclusive_section :
+    Gate.Gen.C42.thenAcceptCalls = ["f.mu.Lock", "append", "f.mu.Unlock", "return", "f.mu.Unlock", "callback", "return"] ∧
+    Gate.Gen.C42.completeCalls = ["f.mu.Lock", "f.mu.Unlock", "return", "f.mu.Unlock", "fn", "return"] ∧
+    countOf Gate.Gen.C42.thenAcceptCalls "f.mu.RLock" = 0 ∧ countOf Gate.Gen.C42.thenAcceptCalls "f.mu.RUnlock" = 0 ∧
+    countOf Gate.Gen.C42.thenAcceptCalls "f.mu.TryLock" = 0 ∧ countOf Gate.Gen.C42.completeCalls "f.mu.RLock" = 0 ∧
+    Gate.Gen.C42.thenAcceptCalls.head? = some "f.mu.Lock" ∧ Gate.Gen.C42.completeCalls.head? = some "f.mu.Lock" := by
+  decide
+
 /-- `ThenCompose` is exactly `out := New(); f.ThenAccept(func(v){ callback(v).ThenAccept(func(u){ out.Complete(u) }) })` -/
 theorem thenCompose_shape : Gate.Gen.C42.thenComposeCalls =
     ["New[]", "func:{", "callback", "func:{", "out.Complete", "}", "callback().ThenAccept", "}", "f.ThenAccept", "return"] := by
